@@ -487,7 +487,14 @@ def run(ctx, only_case=None):
                 "SourceMap::applyToAll; model evaluated from the implementation's state before each map: exact stream (dyadic inputs) bit "
                 "equality, tolerance stream K*2^-24*cond. Oracles on the implementation: inside-grid after every map, appendTracks lookup "
                 "defined, approximation1 drift = stencil first moment, blob centroid = particle, stochastic ensembles (mean, variance, 5 sigma). "
-                "Non-trivial: a particle moved / blob moved / drift row interior and off the zero bin.")
+                "Non-trivial: a particle moved / blob moved / drift row interior and off the zero bin. "
+                "Every track case is also compared with the model assembled from the code generated by translate/track2coq.py (gpos); tracking model 2 also on grids "
+                "with exact-zero rows and subnormal cells. dyntrack cases: DynamicRFKickMap (linear, phase modulation / phase + amplitude noise from the map's own "
+                "__calcModulation with a known seed) + DriftMap driven as main() does over 12-40 steps on n = 56|64, unit hat-blob on particle 0 renewed every 4|6 "
+                "steps: per step offsets and particles against the generated apply() over the queue model, oracle blob centroid = particle while the support is inside "
+                "(non-trivial: >= 8 evaluated maps). load cases: grid->x(q), grid->y(p) against the generated PhaseSpace::x/y. Program level: 4 runs over the four FPTrack "
+                "values, 2 runs FPTrack 2 on a +-20 sigma grid (underflowed tails, particles on the outermost rows), 2 runs with RF phase modulation / noise: track of the "
+                "particle started at (0,0) within [-1/2, 3/2] cells of /BunchPosition, /EnergyAverage (non-trivial: a step changes the mean energy by >= 2 cells).")
     coq = vp_coq.full_check("C15", ctx, fams=("track",))
     q = ctx.quick()
     dis = []
